@@ -33,8 +33,8 @@ def one_history(h):
             steps = []
             for b in h['seq']:
                 if b.startswith('slow'):
-                    # a dozen connections that stay open and silent (or stuck mid-record) for several seconds
-                    steps.append({'do': 'stall', 'count': 12, 'hold_ms': int(float(b[4:] or 6.5) * 1000), 'valid_meanwhile': True})
+                    # forty connections that stay open and silent (or stuck mid-record) for several seconds
+                    steps.append({'do': 'stall', 'count': 40, 'hold_ms': int(float(b[4:] or 6.5) * 1000), 'valid_meanwhile': True})
                 elif b.startswith('fdflood'):
                     # more simultaneous clients than the responder has descriptors, held for a while: accept() itself fails meanwhile
                     steps.append({'do': 'stall', 'count': 100, 'hold_ms': int(float(b[7:]) * 1000), 'valid_meanwhile': False})
@@ -86,7 +86,7 @@ def gen_histories(tier):
         seqs += longer
         exhaustive = True
     # slow clients: longer than any plausible per-connection timeout a responder might use (3 s, 5 s, 10 s, 30 s)
-    slow = [('slow6.5',), ('slow6.5', 'http'), ('garbage', 'slow6.5'), ('slow6.5', 'slow6.5'), ('slow12',), ('slow12', 'hello_abandon')]
+    slow = [('slow6.5',), ('slow6.5', 'http'), ('garbage', 'slow6.5'), ('slow6.5', 'slow6.5'), ('slow12',), ('slow12', 'hello_abandon'), ('slow12',), ('connect_close', 'slow12')]
     if tier != 'quick':
         slow += [('tls_foreign_alpn', 'slow12'), ('slow35',), ('slow35', 'connect_close'), ('slow12', 'slow12')]
     seqs += slow
@@ -144,7 +144,7 @@ def run(tier):
     chk.exhaustive = exhaustive
     chk.rule = ('ordered selections of <= 4 behaviours from the 7-entry catalogue (all of length <= 2%s), each against a fresh '
                 'shipped-profile tacd, followed by a valid handshake; distinct = (history, listener) whose hostile '
-                'connections were all actually played; plus slow clients (12 connections silent for 6.5-35 s), descriptor shortages (100 clients against a responder limited to 64 descriptors), abortive closes and odd server names alone and paired with every entry' % (' plus all of length 3 and 4' if exhaustive else ' plus 150 random of length 3-4'))
+                'connections were all actually played; plus slow clients (40 connections silent for 6.5-35 s), descriptor shortages (100 clients against a responder limited to 64 descriptors), abortive closes and odd server names alone and paired with every entry' % (' plus all of length 3 and 4' if exhaustive else ' plus 150 random of length 3-4'))
     chk.assumptions = ['tacd binary built with the repository release profile (panic=abort)']
     return chk.finish()
 
